@@ -21,8 +21,8 @@ static void build_grammar (int maxr, int maxl, int with_trans)
   for (r = 0; r < nr; r++)
     {
       struct grule *R = &G.rule[r];
-      R->lhs = r == 0 ? 2 : 2 + sx_choice ("lhs", 2);
-      R->n = (r == 0 && sx_param ("len0", -1) >= 0) ? (int) sx_param ("len0", -1) : sx_choice ("rhslen", maxl + 1);
+      R->lhs = r == 0 ? 2 : (r == 1 && sx_param ("lhs1", -1) >= 0) ? 2 + (int) sx_param ("lhs1", -1) : 2 + sx_choice ("lhs", 2);
+      R->n = (r == 0 && sx_param ("len0", -1) >= 0) ? (int) sx_param ("len0", -1) : (r == 1 && sx_param ("len1", -1) >= 0) ? (int) sx_param ("len1", -1) : sx_choice ("rhslen", maxl + 1);
       for (k = 0; k < R->n; k++) R->rhs[k] = sx_choice ("rhs", 4);
       R->anode = NULL; R->cost = 0; R->ntr = 0;
       if (with_trans)
